@@ -812,6 +812,25 @@ try:
     t.garbage_collect(grace_period_ms=0)
     now = set(t.storage.list_files("data")) | set(t.storage.list_files("metadata/manifests"))
     if not ref <= now: bad.append(("files of retained snapshots deleted", sorted(ref - now)))
+    # history: two files in ONE manifest, partial delete (manifest rewritten with carried-over entries), expiry, collection
+    p2 = os.path.join(root, "t2")
+    u = create_table(p2, schema=Schema(schema_id=1, fields=[{"id": 1, "name": "a", "type": "long", "required": False}]))
+    with u.new_transaction() as tx:
+        tx.append_data([{"a": 10}]); tx.append_data([{"a": 11}]); tx.commit()
+    files = sorted(u.storage.list_files("data"))
+    with u.new_transaction() as tx:
+        tx.delete_files(["/" + files[0]]); tx.commit()
+    time.sleep(0.01)
+    with u.new_transaction() as tx:
+        tx.expire_snapshots(int(time.time() * 1000) + 10_000); tx.commit()
+    age_all(p2)
+    want = sorted(r["a"] for r in u.scan())
+    try:
+        u.garbage_collect(grace_period_ms=0)
+        got = sorted(r["a"] for r in u.scan())
+        if got != want: bad.append(("rows changed by a collection after delete+expire", want, got))
+    except Exception as e:
+        bad.append(("collection/scan failed after delete+expire", repr(e)[:120]))
     # a failing manifest read of an OLD snapshot must abort without deleting
     t.storage.write_file("data/orphan.parquet", b"x"); age_all(p)
     oldest = md.snapshots[0].manifest_list.lstrip("/")
@@ -822,6 +841,27 @@ try:
     except GarbageCollectionAborted: pass
     except Exception as e: bad.append(("unexpected exception type", repr(e)))
     if set(os.listdir(os.path.join(p, "data"))) != before: bad.append("files deleted although reachability was unknown")
+    # an exists() that answers False for the manifest list of an OLD retained snapshot must abort as well
+    p3 = os.path.join(root, "t3")
+    w = create_table(p3, schema=Schema(schema_id=1, fields=[{"id": 1, "name": "a", "type": "long", "required": False}]))
+    w.append_records([{"a": 1}])
+    f0 = w.storage.list_files("data")
+    with w.new_transaction() as tx:
+        tx.delete_files(["/" + f0[0]]); tx.commit()
+    w.append_records([{"a": 2}])
+    age_all(p3)
+    md3 = w.metadata_manager.refresh()
+    oldest3 = md3.snapshots[0].manifest_list.lstrip("/")
+    real_exists = w.storage.exists
+    w.storage.exists = lambda path: False if path.lstrip("/") == oldest3 else real_exists(path)
+    before3 = set(os.listdir(os.path.join(p3, "data"))) | set(os.listdir(os.path.join(p3, "metadata", "manifests")))
+    try:
+        w.garbage_collect(grace_period_ms=0); raised3 = False
+    except GarbageCollectionAborted: raised3 = True
+    except Exception as e: raised3 = True
+    after3 = set(os.listdir(os.path.join(p3, "data"))) | set(os.listdir(os.path.join(p3, "metadata", "manifests")))
+    if not raised3 and after3 != before3:
+        bad.append(("missing manifest list of an older retained snapshot was skipped and its files deleted", sorted(before3 - after3)))
 finally:
     shutil.rmtree(root, ignore_errors=True)
 print("replay collect ->", bad or "ok")
